@@ -84,6 +84,7 @@ def gen_trial(rng, profile):
             k, sd = kk if isinstance(kk, tuple) else (kk, sid)
             T = list(tops[i])
             if profile == 'adv' and T and rng.random() < 0.1: T = T[:-1]     # publisher changes its topic list
+            if profile == 'wf' and srcs[i]['eph'] == 0 and len(T) >= 2 and rng.random() < 0.2: T.pop(rng.randrange(len(T)))     # a filter that emits a topic only when it has something for it: this frame lacks one
             balv = 0
             if bal: balv = rng.choice([1, 1, 1, 2])
             elif profile == 'adv' and rng.random() < 0.05: balv = 1
